@@ -9,6 +9,7 @@ import FpgoVerif.Props.C17
 #print axioms FpgoVerif.C17.C17_generic
 #print axioms FpgoVerif.C17.C17_method_model
 #print axioms FpgoVerif.C17.C17_lazy
+#print axioms FpgoVerif.C17.C17_call_sends_nothing
 #print axioms FpgoVerif.C17.C17_once
 #print axioms FpgoVerif.C17.C17_errors
 #print axioms FpgoVerif.C17.C17_decode_errors
